@@ -205,6 +205,11 @@ def main():
         out_lines.append("  key=%s :: %s" % (key, v['what']))
         rc = 1
 
+    if rc == 0 and ctx.cov.get('thread_replay_divergences'):
+        # no violation found, but part of the schedule space could not be enumerated soundly: not a clean verdict
+        print("HARNESS-ERROR %s: %d thread-schedule prefixes did not replay deterministically (the code under test keeps state "
+              "across executions) and nothing else was found" % (pid, ctx.cov['thread_replay_divergences']), file=sys.stderr)
+        return 2
     cov = dict(ctx.cov)
     ev = {
         'property_id': pid, 'tier': args.tier, 'seed': seed, 'level': mod.LEVEL,
